@@ -431,6 +431,7 @@ func groundObligation(o *Obligation, rounds int) *Obligation {
 	for _, a := range flat {
 		if g.hasQ(a) {
 			quants = append(quants, a)
+			g.addGround(a) // its ground subterms (symbols, arrays it talks about) are part of the term universe
 		} else {
 			ground = append(ground, a)
 			g.addGround(a)
